@@ -39,6 +39,33 @@ fn json_list(v: &[String]) -> String {
     format!("[{}]", v.iter().map(|s| json_str(s)).collect::<Vec<_>>().join(","))
 }
 
+/// progress counter of the unscheduled suites (bumped per operation); the watchdog turns a
+/// sequential operation that never returns into a report instead of a hung check
+pub static HEARTBEAT: std::sync::atomic::AtomicU64 = std::sync::atomic::AtomicU64::new(0);
+pub static WATCH_PROGRESS_FILE: std::sync::Mutex<Option<String>> = std::sync::Mutex::new(None);
+
+fn start_watchdog(limit_secs: u64) {
+    std::thread::spawn(move || {
+        let mut last = HEARTBEAT.load(std::sync::atomic::Ordering::Relaxed);
+        let mut still = 0u64;
+        loop {
+            std::thread::sleep(std::time::Duration::from_secs(1));
+            let now = HEARTBEAT.load(std::sync::atomic::Ordering::Relaxed);
+            if now == last {
+                still += 1;
+            } else {
+                still = 0;
+                last = now;
+            }
+            if still >= limit_secs {
+                let at = WATCH_PROGRESS_FILE.lock().ok().and_then(|g| g.clone()).and_then(|p| std::fs::read_to_string(p).ok()).unwrap_or_default();
+                println!("HANG no operation returned for {} s while running {}", limit_secs, at);
+                std::process::exit(97);
+            }
+        }
+    });
+}
+
 fn main() {
     let args: Vec<String> = std::env::args().collect();
     if args.len() < 2 {
@@ -47,7 +74,12 @@ fn main() {
     }
     // injected panics are expected: keep stderr quiet
     std::panic::set_hook(Box::new(|_| {}));
+    // measured on a scratch map before any hook consumer is active
+    life::init_lock_offsets();
     sched::install();
+    if matches!(args[1].as_str(), "seq" | "seq-replay" | "bulk") {
+        start_watchdog(30);
+    }
     match args[1].as_str() {
         "seq" => cmd_seq(&args),
         "seq-replay" => cmd_seq_replay(&args),
@@ -106,7 +138,9 @@ fn cmd_seq(args: &[String]) {
         writeln!(impl_f, "{}", header).unwrap();
         if let Some(p) = &progress {
             let _ = std::fs::write(p, format!("seq case-seed {}", cseed));
+            *WATCH_PROGRESS_FILE.lock().unwrap() = Some(p.clone());
         }
+        HEARTBEAT.fetch_add(1, std::sync::atomic::Ordering::Relaxed);
         let mut res;
         if life {
             // record every hook event of this (unscheduled) thread, keep freed memory in quarantine
@@ -116,6 +150,7 @@ fn cmd_seq(args: &[String]) {
             res = sched::with_recording(|| seq::run_case(&case));
             let trace = s.inner.lock().unwrap().trace.clone();
             res.failures.extend(life::analyze(&trace, &[], &[]).into_iter().map(|f| format!("{} case {}", f, i)));
+            res.failures.extend(life::lock_discipline(&trace).into_iter().map(|f| format!("{} case {}", f, i)));
             for p in qalloc::take_double_frees() {
                 res.failures.push(format!("[double-free] case {}: block {:#x} was freed twice", i, p));
             }
